@@ -143,6 +143,11 @@ class ConstBitStream(Bits):
         s._pos = 0
         return s
 
+    def copy(self: TConstBitStream) -> TConstBitStream:
+        """Return a copy of the bitstring, with its own bit position (starting at 0)."""
+        # The bits are immutable and can be shared, but the bit position must not be.
+        return self.__copy__()
+
     def __and__(self: TConstBitStream, bs: BitsType, /) -> TConstBitStream:
         """Bit-wise 'and' between two bitstrings. Returns new bitstring.
 
